@@ -4,6 +4,7 @@ import ProfiVerif.Driver.Gap
 import ProfiVerif.Driver.Diag
 import ProfiVerif.Driver.Apps
 import ProfiVerif.Driver.Prm
+import ProfiVerif.Driver.DpOracle
 open PV PV.Driver
 
 /-
@@ -22,6 +23,11 @@ def main (args : List String) : IO UInt32 := do
   | ["model", "phyrx"] => engineLoop stepPhyRx [] inp out; return 0
   | ["model", "apps"] => engineLoop (fun (st : AppsState) l => stepApps st (splitWords l)) {} inp out; return 0
   | ["oracle", "C18", o, i] => oracleLoop oracleC18 {} o i
+  | ["model", "dp"] => engineLoop (fun (st : Option DpCase) l => stepDp st (splitWords l)) none inp out; return 0
+  | ["oracle", "C03", o, i] => oracleLoop oracleC03 ({}, {}) o i
+  | ["oracle", "C04", o, i] => oracleLoop oracleC04 ({}, {}) o i
+  | ["oracle", "C08", o, i] => oracleLoop oracleC08 ({}, {}) o i
+  | ["oracle", "C14", o, i] => oracleLoop oracleC14 ({}, {}) o i
   | ["model", "diag"] => engineLoop (fun (st : Option PV.Diag.PState) l => stepDiag st (splitWords l)) none inp out; return 0
   | ["oracle", "C17", o, i] => oracleLoop oracleC17 { cap := 0, prev := "last=-" } o i
   | ["model", "gap"] => engineLoop (fun (_ : Unit) l => ((), stepGap l)) () inp out; return 0
